@@ -145,6 +145,10 @@ def _one_case(rng, k, force=None):
     case["nb_samples"] = force.get("nb_samples", rng.choice([1, 2, 3, 5, 8, 12]))
     case["bootstrap_method"] = force.get("bootstrap_method", C13.METHODS[k % 3])
     case["alpha"] = enc(Fraction(rng.choice(ALPHAS)))
+    if case["bootstrap_method"] == "quantile" and rng.random() < 0.3:
+        # an array of levels (utils.bootstrap_ci documents it for the quantile method; Scores.bootstrap_ci passes alpha through): the result gains the alpha axes between the metric axes and the last axis
+        ks = sorted(rng.sample(range(len(ALPHAS)), min(len(ALPHAS), rng.choice([2, 3]))))
+        case["alpha"] = {"shape": [len(ks)], "data": [enc(Fraction(ALPHAS[i])) for i in ks]}
     # history: further calls on the SAME object with the same metric and kwarg names but other values
     # (scalar -> scalar -> array threshold, another scale)
     more = []
@@ -336,7 +340,9 @@ def run_impl(case):
                 if which == "metric":
                     res = target.bootstrap_metric(metric, config=cfg, **kwargs)
                 else:
-                    res = target.bootstrap_ci(metric, alpha=fl(case["alpha"]), config=cfg, **kwargs)
+                    al = case["alpha"]
+                    al = np.array([fl(x) for x in al["data"]]).reshape(al["shape"]) if isinstance(al, dict) else fl(al)
+                    res = target.bootstrap_ci(metric, alpha=al, config=cfg, **kwargs)
             finally:
                 del target.bootstrap_sample
             return res, samples, (counter.calls if counter is not None else None), cfg_bad, repr(cfg)[:300]
@@ -394,7 +400,8 @@ def run_impl(case):
                 hh = np.asarray(k["theta_hat"])
                 entry["theta_hat"], entry["theta_hat_shape"] = flat(hh), list(hh.shape)
             if "alpha" in k:
-                entry["alpha"] = enc(float(k["alpha"]))
+                ak = np.asarray(k["alpha"])
+                entry["alpha"] = enc(float(ak)) if ak.ndim == 0 else {"shape": list(ak.shape), "data": [enc(float(x)) for x in ak.reshape(-1)]}
             if "method" in k:
                 entry["method"] = str(k["method"])
             entry["ret"] = flat(r)
@@ -523,6 +530,8 @@ def coq_term(case, res):
             by_name = case["metric"]["type"] == "name"
             marg = f"(ByName {cq.nat(NAME_METRICS.index(name))})" if by_name else f"(Callable (rate_metric {RATE_COQ[name]}))"
             parts.append(f"rows_close (model_bootstrap_metric {src} {marg} {cq.nat(n)} {cq.q(step)} {thr_t}) {rows}")
+    if "ci_err" in r and isinstance(case["alpha"], dict):
+        return "(" + " && ".join(parts) + ")" if parts else None
     if "ci_err" in r:
         size = len(r["hat"])
         n = case["nb_samples"]
@@ -663,8 +672,12 @@ def _oracle_one(case, r):
         fails.append(("C14/ci/method", f"method handed to the CI formula: {u.get('method')}, configured {case['bootstrap_method']}"))
     if not all(_same(a, b) for a, b in zip(u["ret"], r["ci"])) or len(u["ret"]) != len(r["ci"]):
         fails.append(("C14/ci/assembly", "bootstrap_ci does not return what the CI formula returned"))
-    if r["ci_shape"] != mshape + [2]:
-        fails.append(("C14/ci/shape", f"bootstrap_ci shape {r['ci_shape']}, want {mshape + [2]}"))
+    ashape = case["alpha"]["shape"] if isinstance(case["alpha"], dict) else []
+    nz = 1
+    for d_ in ashape:
+        nz *= d_
+    if r["ci_shape"] != mshape + ashape + [2]:
+        fails.append(("C14/ci/shape", f"bootstrap_ci shape {r['ci_shape']}, want {mshape + ashape + [2]}"))
         return fails
     # the documented formula on the actual rows, with metric(self) as estimate (independent evaluation)
     c13_case = {"N": n, "Y": mshape, "theta": r["rows"], "hat": r["hat"], "alpha": case["alpha"], "method": case["bootstrap_method"],
@@ -679,9 +692,11 @@ def _oracle_one(case, r):
             h = r["hat"][j]
             if h is None:
                 continue
-            if not (_same(ci[2 * j], h) and _same(ci[2 * j + 1], h)):
-                fails.append(("C14/identity", f"identity sampler: component {j} interval ({C13._num(ci[2 * j])}, {C13._num(ci[2 * j + 1])}) "
-                                              f"is not the point estimate {C13._num(h)}"))
+            bad_k = [k_ for k_ in range(nz) if not (_same(ci[(j * nz + k_) * 2], h) and _same(ci[(j * nz + k_) * 2 + 1], h))]
+            if bad_k:
+                k_ = bad_k[0]
+                fails.append(("C14/identity", f"identity sampler: component {j} interval ({C13._num(ci[(j * nz + k_) * 2])}, "
+                                              f"{C13._num(ci[(j * nz + k_) * 2 + 1])}) is not the point estimate {C13._num(h)}"))
                 break
     # --- reproducibility: same seed (same sampler history) => identical results, on the same and on a fresh equal object
     for key_r, key_c, what in (("rows_b", "ci_b", "two runs on the same object"), ("rows_fresh", "ci_fresh", "this object and a fresh equal object")):
